@@ -757,7 +757,11 @@ theorem RT_octetString (pos : Nat) (bytes : Bytes) (params : Params) (bits : Bit
       · simp
       · cases hl : params.sizeLB with
         | none => cases params.sizeUB <;> simp
-        | some l => have := hlbnn l hl; cases params.sizeUB <;> simpa using this
+        | some l =>
+          have := hlbnn l hl
+          cases params.sizeUB with
+          | none => simpa using this
+          | some u => simp only [Option.getD_some]; split <;> omega
     split at h
     · -- fixed size
       rename_i hsr
@@ -977,7 +981,11 @@ theorem RT_bitString (pos : Nat) (bytes : Bytes) (len : Nat) (params : Params) (
         · simp
         · cases hl : params.sizeLB with
           | none => cases params.sizeUB <;> simp
-          | some l => have := hlbnn l hl; cases params.sizeUB <;> simpa using this
+          | some l =>
+          have := hlbnn l hl
+          cases params.sizeUB with
+          | none => simpa using this
+          | some u => simp only [Option.getD_some]; split <;> omega
       generalize hsb : sizeBounds se params.sizeLB params.sizeUB = sb at hb1 hb2 hb3
       obtain ⟨lb', ub', sr'⟩ := sb
       simp only at hb1 hb3 hb2
